@@ -405,17 +405,15 @@ class Oracle:
         if o[0] == "F":
             inside = self.under_a_root(o[1], roots)
             src = self.tree.by_text.get(o[1], "<a file that is not part of the scratch tree>")
-            if name.startswith("/"):
-                sig = "absolute-name-served"
-                what = f"absolute template name {name!r} was served ({src}) instead of TemplateNotFoundError"
-            elif is_escaping(name):
-                sig = "dotdot-name-served"
-                what = f"template name {name!r} has a '..' segment and was served ({src}) instead of TemplateNotFoundError"
-            elif not inside:
-                sig = "served-outside-search-path"
-                what = f"template name {name!r} returned the content of {src}, which is not below a search directory"
-            if sig and not inside:
-                what += " — OUTSIDE every search directory"
+            kind = "absolute-name" if name.startswith("/") else "dotdot-name" if is_escaping(name) else None
+            if not inside:
+                sig = "read-outside-search-path:" + (kind or "ordinary-name")
+                what = (f"template name {name!r} returned the content of {src}, which is OUTSIDE every search "
+                        "directory of the loader")
+            elif kind:
+                sig = kind + "-served"
+                what = (f"template name {name!r} ({'absolute' if kind == 'absolute-name' else 'has a .. segment'}) was "
+                        f"served ({src}) instead of raising TemplateNotFoundError")
         elif o[0] == "X":
             sig = "non-TemplateNotFoundError:" + o[1]
             what = f"template name {name!r} raised {o[1]} instead of TemplateNotFoundError"
